@@ -725,6 +725,36 @@ def run (st : St) : List Op → St × List Out
     | none => run st ops
     | some r => let (st', o) := run r.st ops; (st', r.outs ++ o)
 
+/-! ### packet objects and links that serialise later than `send_packet` returns
+
+Links keep the packet OBJECTS handed to `send_packet` (driver out-queues, the resend timer) and read header
+and data later.  What reaches the wire for message `k` is therefore the data LAST assigned to its object.
+Freshness: in `create()` the `CRTPPacket()` call is inside the while loop (Gen `createPacketInLoop`), every other
+sending function constructs its own local packet (Gen `packetSites`), nothing is stored on an attribute. -/
+
+/-- `msgs` = (object id, data at the time of `send_packet`), in call order: what a late-serialising link sends -/
+def lateWire (msgs : List (Nat × List UInt8)) : List (List UInt8) :=
+  msgs.map fun m => match (msgs.filter (fun x => x.1 == m.1)).getLast? with
+    | some x => x.2
+    | none => m.2
+
+/-- object ids of the `n` messages of one `create()` call: one fresh object per loop iteration when the
+constructor call is inside the loop, the same object for all of them otherwise -/
+def createPids (inLoop : Bool) (base n : Nat) : List Nat :=
+  if inLoop then (List.range n).map (base + ·) else List.replicate n base
+
+def txData (outs : List Out) : List (List UInt8) :=
+  outs.filterMap fun o => match o with | .tx d _ => some d | _ => none
+
+/-- what a late-serialising link transmits for the messages of one `create()` call -/
+def createWire (base : Nat) (outs : List Out) : List (List UInt8) :=
+  lateWire ((createPids Gen.C05.createPacketInLoop base (txData outs).length).zip (txData outs))
+
+/-- … and for a whole history: every `send_packet` is given a packet constructed for it, so the k-th packet of the
+history is object k -/
+def historyWire (outs : List Out) : List (List UInt8) :=
+  lateWire ((List.range (txData outs).length).zip (txData outs))
+
 /-! ### connect() / disconnect() as sequences of atomic statements (interleaving model)
 
 `SyncLogger.connect` and `.disconnect` run in the user's thread while the incoming-packet thread delivers
